@@ -305,7 +305,7 @@ def main(tier, replay_path=None):
     for name in sources.shipped_names():
         run_source({"kind": "shipped", "name": name}, rep)
     nshards = 16 if tier == "thorough" else 8
-    total = 16 * 1200 if tier == "thorough" else 1600
+    total = 16 * 5000 if tier == "thorough" else 1600
     for part in engine.run_shards(_shard, nshards, common.verif_seed(), tier=tier, n_cases=total // nshards):
         rep.merge(part)
     docs.cleanup()
